@@ -9,6 +9,44 @@ CALLERS = ['connection_requested', 'connection_failed', 'link_established', 'con
 IDLE_OK = (('ParamUpdater', 'Queue.get'),)     # parameter thread idle on its request queue: normal
 
 
+def lock_edges(locklog):
+    """nested acquisitions observed in a run: sorted list of [held lock, wanted lock] pairs (lock = module that
+    created it).  Locks that are released by another thread than the one that acquired them are used as signals
+    (the parameter updater's wait_lock) and are left out."""
+    locklog = [(th, op, site.split(':')[0]) for th, op, site in locklog]
+    owner = {}
+    signal = set()
+    for th, op, site in locklog:
+        if op == 'got':
+            owner[site] = th
+        elif op == 'rel':
+            if owner.get(site) not in (None, th):
+                signal.add(site)
+            owner[site] = None
+    locklog = [x for x in locklog if x[2] not in signal]
+    held = {}
+    edges = set()
+    for th, op, site in locklog:
+        h = held.setdefault(th, [])
+        if op == 'want':
+            for x in h:
+                if x != site:
+                    edges.add((x, site))
+                else:
+                    edges.add((x, site))          # re-acquiring a non-reentrant lock it already holds
+        elif op == 'got':
+            h.append(site)
+        elif op == 'rel':
+            if site in h:
+                h.remove(site)
+            else:
+                for other in held.values():      # released by another thread than the one that took it
+                    if site in other:
+                        other.remove(site)
+                        break
+    return sorted([list(e) for e in edges])
+
+
 def run_case(case):
     """case = {'cfg': {...Config kwargs}, 'script': [[op, arg?], ...], 'seed': int, 'choices': optional list}
     ops: open, close, sync_open, sync_close, wait_packets k, sleep dt, reconnect (sync_open on a fault-free device,
@@ -101,6 +139,27 @@ def run_case(case):
                                 and len(dev.FakeLink.instances) == n0 + 1:
                             cf.close_link()
                     threading.Thread(target=closer).start()
+                elif name == 'bg_mem_write':
+                    # a second user thread writes to a memory once k packets have been exchanged (the device does
+                    # not answer memory traffic: only the library's locking is exercised)
+                    import threading
+                    from cflib.crazyflie.mem import MemoryElement
+                    k = op[1]
+                    n0 = len(dev.FakeLink.instances)
+                    fake_mem = MemoryElement(id=0, type=MemoryElement.TYPE_I2C, size=64, mem_handler=cf.mem)
+
+                    def writer(k=k, n0=n0):
+                        def due():
+                            ins = dev.FakeLink.instances
+                            return len(ins) > n0 and (ins[n0].count >= k or ins[n0].closed)
+                        if S.block(due, 30.0, 'wait_packets') and cf.link is not None:
+                            log.append(['ev', 'mem_write', S.name()])
+                            try:
+                                cf.mem.write(fake_mem, 0, bytes(range(40)))
+                                log.append(['ev', 'mem_write_done', S.name()])
+                            except Exception as e:      # the application's own thread: it sees the exception
+                                log.append(['ev', 'mem_write_raised:' + type(e).__name__, S.name()])
+                    threading.Thread(target=writer).start()
                 elif name == 'reconnect':
                     dev.FakeLink.cfg = dev.Config(n_log=cfgkw.get('n_log', 3), n_param=cfgkw.get('n_param', 2))
                     dev.FakeLink.connect_raises = None
@@ -138,7 +197,7 @@ def run_case(case):
                 'dead': [list(d) for d in S.dead], 'choices': list(S.choices),
                 'sent_after_close': sum(l.sent_after_close for l in dev.FakeLink.instances),
                 'sessions': len(dev.FakeLink.instances), 'state': cf.state, 'link_none': cf.link is None,
-                'notes': [list(x) for x in S.log]}
+                'notes': [list(x) for x in S.log], 'lock_edges': lock_edges(S.locklog)}
     finally:
         for f in restore:
             f()
